@@ -149,6 +149,7 @@ func init() {
 			{"loop-accumulator", "a boolean that summarises a loop (some element needs X / all elements satisfy Y) and is read after it is accumulated monotonically - set to a constant, combined with its previous value, assigned under a test of itself, or followed by leaving the loop - never overwritten by the value computed for the current element only", func(c *Ctx) { ruleLoopAccumulator(c, "pkg/vm", "pkg/vm/stackitem") }},
 			{"dead-update", "no struct-typed local is assigned and field-updated without ever being read, passed on or returned (a modified copy that is lost while the stale original goes on being used)", func(c *Ctx) { ruleDeadUpdate(c, "pkg/vm", "pkg/vm/stackitem") }},
 			{"check-all-loop", "a loop that rejects on a property of each element with an error return is not left early with a break (the elements after it would escape the check)", func(c *Ctx) { ruleCheckAllLoop(c, "pkg/vm", "pkg/vm/stackitem") }},
+			{"sibling-arms", "where a type switch of the VM gives Array and Struct arms of their own that perform the same container operation, both arms assign the same variables (the reference bookkeeping of the removed or replaced element)", ruleSiblingArms},
 			{"limit-scale", "the VM stores its gas limit scaled by a constant; the scaling of a caller-chosen 64-bit limit is bounded against math.MaxInt64 so that the stored limit cannot wrap negative (a negative limit means no limit)", ruleLimitScale},
 			{"refs-handover", "an element read from a stack without un-counting it and stored elsewhere without counting it keeps its one count: the source stack is not un-counted (Clear/Pop/RemoveAt) afterwards in the same instruction - the counter would under-count what is reachable", ruleRefsHandover},
 			{"reset-complete", "every VM field written during execution (the reference counter included) is re-initialised by VM.Reset: the VM is reused for all transactions of a block, a counter that carries over makes the item limit trigger early", ruleResetComplete},
@@ -174,6 +175,7 @@ func init() {
 			{"loop-accumulator", "a boolean that summarises a loop (some element needs X / all elements satisfy Y) and is read after it is accumulated monotonically - set to a constant, combined with its previous value, assigned under a test of itself, or followed by leaving the loop - never overwritten by the value computed for the current element only", func(c *Ctx) { ruleLoopAccumulator(c, "pkg/vm", "pkg/vm/stackitem") }},
 			{"dead-update", "no struct-typed local is assigned and field-updated without ever being read, passed on or returned (a modified copy that is lost while the stale original goes on being used)", func(c *Ctx) { ruleDeadUpdate(c, "pkg/vm", "pkg/vm/stackitem") }},
 			{"check-all-loop", "a loop that rejects on a property of each element with an error return is not left early with a break (the elements after it would escape the check)", func(c *Ctx) { ruleCheckAllLoop(c, "pkg/vm", "pkg/vm/stackitem") }},
+			{"sibling-arms", "where a type switch of the VM gives Array and Struct arms of their own that perform the same container operation, both arms assign the same variables (the reference bookkeeping of the removed or replaced element)", ruleSiblingArms},
 			{"modpow-sign", "the Euclidean-to-truncated correction of MODPOW (subtracting |modulus|) is gated by the parity test of the exponent and the sign tests: an even power of a negative base is positive and must not be shifted", ruleModPowSign},
 			{"reset-complete", "every VM field written during execution is re-initialised by VM.Reset: the VM is reused for all transactions of a block, and a pending exception that carries over makes the next transaction's ENDFINALLY re-throw it", ruleResetComplete},
 			{"opcode-tables", "every Opcode constant is valid in the decoder table, dispatched by vm.execute (arm or PUSHINT range test, faulting default), priced in fee.coefficients, and operand usage agrees between decoder and dispatcher", ruleOpcodeTables},
